@@ -1,0 +1,12 @@
+//go:build verif
+
+// Contracts for package template, checked by /verif (govc). Comment-only file.
+package template
+
+//@ func createDefaultFunctions
+//@   property C12
+//@   trusted "builds a map of maps (tag -> service set) and a FuncMap of closures for text/template: maps holding maps are outside the modelled subset"
+
+//@ func (Builder).Build
+//@   property C12 C10
+//@   requires [wired] b.formatter != nil
